@@ -12,17 +12,17 @@ def main():
     chk.assume(*e2prop.E2_ASSUME)
     chk.assume('the statement "equals the integral" is split: here the assembled entries equal the cubature sum of the textbook integrand as exact rational identities; exactness of the cubature rules is C14',
                'one-cell mesh: scatter/gather across several cells, the voxel assembler drivers around the cell kernel (data handler, colouring, explicit float/double instantiations in .cpp/.cu), the Frechet term and the 3D / deformation-with-streamline-diffusion combinations of the Burgers assembler and threaded routes are outside this check')
-    e2prop.run_e2(chk, e2prop.e2_harness_path('c16_e2.cpp'), 'c16_e2', timeout=20 if quick else 300, harness_args=['--bounds', lvl], max_group=1,
+    e2prop.run_e2(chk, e2prop.e2_harness_path('c16_e2.cpp'), 'c16_e2', timeout=20 if quick else 90, harness_args=['--bounds', lvl], max_group=1,
                   support=C.FEAT_MIN_SRCS)
     # voxel slice: the shared host/device cell kernel of the voxel Poisson assembler
     chk.bounds.append('E2 voxel slice: Kernel::poisson_assembly_kernel (Q2) on ONE quadrilateral with the last 1..2 (thorough: all 4; one hexahedron vertex) vertices symbolic, the others at fixed rational positions (non-affine cell); Gauss-Legendre 2x2 (thorough 3x3)')
     chk.functions += ['VoxelAssembly::Kernel::poisson_assembly_kernel<SpaceHelper<Q2StandardFE<Hypercube<dim>>, SymReal, Index>>', 'VoxelAssembly::SpaceHelper::{set_coefficients,calc_jac_mat,eval_ref_gradients,trans_gradients}']
     if C.os.environ.get('C16_SKIP_VOXEL') is None:
-        e2prop.run_e2(chk, e2prop.e2_harness_path('c16v_e2.cpp'), 'c16v_e2', timeout=30 if quick else 300, harness_args=['--bounds', lvl], max_group=1, support=C.FEAT_MIN_SRCS)
+        e2prop.run_e2(chk, e2prop.e2_harness_path('c16v_e2.cpp'), 'c16v_e2', timeout=30 if quick else 90, harness_args=['--bounds', lvl], max_group=1, support=C.FEAT_MIN_SRCS)
     # Burgers slice: route identities of the real BurgersAssembler (no closed form needed)
     chk.bounds.append('E2 Burgers slice: BurgersAssembler<.,.,2> on the once refined reference triangle (P1; thorough also Q1) with concrete rational geometry and symbolic convection field, primal vector, nu, beta, theta, scale: assemble_matrix(w)*u == assemble_vector(w,u) for gradient and deformation tensor; scaled + repeated assembly accumulate; on 4 quadrilaterals (Q1) with streamline diffusion (symbolic sd_delta, sd_nu, sd_v_norm) and a convection field vanishing at the barycentre of the last cell: blocked matrix == scalar matrix on the block diagonal')
     chk.functions += ['Assembly::BurgersAssembler<SymReal,Index,2>::{assemble_matrix,assemble_scalar_matrix,assemble_vector}', 'Trafo::Standard::Evaluator::width_directed']
-    e2prop.run_e2(chk, e2prop.e2_harness_path('c16b_e2.cpp'), 'c16b_e2', timeout=60 if quick else 300, harness_args=['--bounds', lvl], max_group=1, support=C.FEAT_MIN_SRCS)
+    e2prop.run_e2(chk, e2prop.e2_harness_path('c16b_e2.cpp'), 'c16b_e2', timeout=60 if quick else 120, harness_args=['--bounds', lvl], max_group=1, support=C.FEAT_MIN_SRCS)
     return chk.finish(
         explanation='Partial (stated): the real symbolic/bilinear/linear assemblers and the DomainAssembler job route are executed on one cell with symbolic vertex coordinates; z3 decides as exact identities that classic and job routes agree entry by entry, Laplace rows sum to zero, symmetric forms give symmetric matrices, the mass entries sum to sum_q w_q det J(x_q), scaled/repeated assembly adds onto existing values, and for Lagrange1 that every matrix/vector entry equals an independent cubature sum built from closed-form reference basis functions and the vertex coordinates.',
         rule=e2prop.E2_RULE, trusted=e2prop.E2_TRUSTED)
